@@ -384,7 +384,11 @@ def sig_of(res: dict[str, Any]) -> dict[str, Any]:
     reader = "TCPUDSServerTransport.handle_client" if ("server" in kind or kind.endswith("-up")) \
         else "LinesTransportMixin.read"
     feat = res.get("feat") or {}
-    return {"reader": reader, "transport": "unix-lines" if "unix" in base else "tcp-lines",
+    src = (res.get("scn") or {}).get("src", "ref")
+    sender = {"ref": "reference-encoder", "client": "LinesTransportMixin.write", "server": "handle_client-reply"}[src.split(":")[0]]
+    if kind.startswith("real-e2e"):
+        sender = "LinesTransportMixin.write" if kind.endswith("-up") else "handle_client-reply"
+    return {"reader": reader, "sender": sender, "transport": "unix-lines" if "unix" in base else "tcp-lines",
             "input": "eof-inside-line" if feat.get("eof") == "inside-line" else "other"}
 
 
@@ -608,16 +612,16 @@ def self_tests(rep: Report, results: list[dict[str, Any]], verdicts: dict[int, t
                 break
     if pick is None:
         # the tree under test produced no such execution (it is being reported for violations):
-        # fall back to the execution a conforming reader produces for plan F4 Z T F7 Z E, and make
+        # fall back to the execution a conforming reader produces for plan F2 Z T F9 Z E, and make
         # sure TLC accepts it before corrupting it
         msgs = SHORT_SETS[0]
         chunks = [L.ref_encode(m) for m in msgs]
         rec = L.Rec(msgs)
         for m, ch in zip(msgs, chunks):
             rec.send(m, len(ch))
-        rec.feed(4); rec.begin(L.READ_TO_MS); rec.end("Msg", msgs[0]); rec.begin(L.READ_TO_MS); rec.end("Timeout")
-        rec.feed(7); rec.begin(L.READ_TO_MS); rec.end("Msg", msgs[1]); rec.begin(L.READ_TO_MS); rec.end("Msg", msgs[2])
-        rec.close(); rec.begin(L.READ_TO_MS); rec.end("Empty")
+        rec.feed(2); rec.begin(L.READ_TO_MS); rec.end("Timeout")
+        rec.feed(9); rec.begin(L.READ_TO_MS); rec.end("Msg", msgs[0]); rec.begin(L.READ_TO_MS); rec.end("Msg", msgs[1])
+        rec.begin(L.READ_TO_MS); rec.end("Msg", msgs[2]); rec.close(); rec.begin(L.READ_TO_MS); rec.end("Empty")
         pick = {"kind": "tcp", "ev": rec.ev, "rb": rec.rb, "tab": rec.tab, "wire": b"".join(chunks), "notes": {},
                 "outcomes": rec.outcomes(), "feat": {"wait_partial": True},
                 "scn": {"kind": "tcp", "msgs": [m.hex() for m in msgs], "src": "ref", "fam": "canned"}}
